@@ -422,11 +422,11 @@ func ShrinkDaemon(sc *DaemonScenario) []*DaemonScenario {
 // genCrash: the four deterministic scripts of C13 (production, resharing as a remaining
 // member, leaving, joining); the seed enumerates (script, operation index, mode).
 func genCrash(seed uint64, tier string) *DaemonScenario {
-	variants := []string{"production", "reshare-remain", "reshare-leave", "reshare-join"}
+	variants := []string{"production", "reshare-remain", "reshare-leave", "reshare-join", "reshare-shrink"}
 	modes := []struct {
 		m   string
 		pct int
-	}{{"before", 0}, {"after", 0}, {"torn", 0}, {"torn", 50}, {"torn", 97}}
+	}{{"before", 0}, {"after", 0}, {"torn", 0}, {"torn", 50}, {"torn", 97}, {"mid", 0}}
 	v := int(seed % uint64(len(variants)))
 	idx := int(seed / uint64(len(variants)))
 	mode := modes[idx%len(modes)]
@@ -447,6 +447,11 @@ func genCrash(seed uint64, tier string) *DaemonScenario {
 	case "reshare-leave":
 		sc.N, sc.T = 4, 3
 		sc.Reshares = []ResharePlan{{AtRound: 2, NewT: 2, Leave: []int{1}}}
+		rounds = 2 + 12 + sc.KickoffS + 3*sc.PhaseS + 3
+	case "reshare-shrink":
+		// the target stays while the group and the threshold get smaller: its files are rewritten with shorter content
+		sc.N, sc.T = 4, 3
+		sc.Reshares = []ResharePlan{{AtRound: 2, NewT: 2, Leave: []int{3}}}
 		rounds = 2 + 12 + sc.KickoffS + 3*sc.PhaseS + 3
 	case "reshare-join":
 		sc.Extra = 1
